@@ -326,7 +326,7 @@ func TestC12(t *testing.T) {
 	run := evid.Start("C12", "exploration")
 	thorough := run.Thorough()
 
-	budget := 100 * time.Second
+	budget := 130 * time.Second
 	if thorough {
 		budget = 24 * time.Minute
 	}
